@@ -148,6 +148,8 @@ def t06_delta(run, fx):
 
 
 def check(run, fx, tier, floors=True):
+    import ignored
+    ignored.run_for(run, fx, 'C06', floors)
     if floors or any(b.path == "tables::cmap::Format4::glyph_id_for_id_range_offset" for b in fx.bodies):
         t06_delta(run, fx)
     import speclayout
